@@ -65,63 +65,114 @@ theorem wire_none_mem (k : Core) (n x : Nat) (p : Nat × Nat) :
     · exact Or.inl (Or.inl h)
     · exact Or.inr ⟨j, hj, by simp, h⟩
 
+/-- `repeated` of the model: the argument's node was an input of the step already -/
+theorem repeated_iff (k : Core) (n x i : Nat) (hnx : n ≠ x) :
+    (objectsOf (k.from x i).frm n).contains x = true ↔ (n, x) ∈ k.frm := by
+  rw [List.contains_iff_mem, mem_objectsOf]
+  simp only [Core.from, List.mem_cons]
+  constructor
+  · rintro (h | h)
+    · exact absurd (Prod.mk.inj h).1 hnx
+    · exact h
+  · exact Or.inr
+
+/-- The wiring of a passed operation, in general: the step `n` takes the argument's node `x`; `x` takes
+its internal node `i`; the internal nodes attached to `x` take `i`; the other internal nodes of `n` take
+`x`; and `i` takes every input that `n` had before this argument, the node `x` itself included when it
+was one of them (the same source passed a second time). -/
+theorem wire_some_mem_all (k : Core) (n x i : Nat) (p : Nat × Nat)
+    (hnx : n ≠ x) (hnn : (n, n) ∉ k.ints) (hxn : (x, n) ∉ k.ints) :
+    p ∈ (wire k n x (some i)).frm ↔
+      p ∈ k.frm ∨ p = (x, i) ∨ p = (n, x) ∨ (∃ j, (x, j) ∈ k.ints ∧ p = (j, i)) ∨
+      (∃ j, (n, j) ∈ k.ints ∧ j ≠ i ∧ p = (j, x)) ∨
+      (∃ fin, (n, fin) ∈ k.frm ∧ p = (i, fin)) := by
+  simp only [wire]
+  have hrep := repeated_iff k n x i hnx
+  generalize (objectsOf (k.from x i).frm n).contains x = rep at hrep
+  rw [mem_foldl_from (fun fin => x != fin || rep) (fun _ => i) (fun fin => fin)]
+  have hints : ∀ (K : Core), (List.foldl (fun k j => k.from j i) K (intsOf K.ints x)).ints = K.ints :=
+    fun K => (foldl_from_frame' (fun j => j) (fun _ => i) _ K).2.2.2
+  have hF : ∀ q, q ∈ (List.foldl (fun k j => if (some j != some i) = true then k.from j x else k)
+      (List.foldl (fun k j => k.from j i) ((k.from x i).from n x) (intsOf ((k.from x i).from n x).ints x))
+      (intsOf (List.foldl (fun k j => k.from j i) ((k.from x i).from n x)
+        (intsOf ((k.from x i).from n x).ints x)).ints n)).frm ↔
+      q ∈ k.frm ∨ q = (x, i) ∨ q = (n, x) ∨ (∃ j, (x, j) ∈ k.ints ∧ q = (j, i)) ∨
+      (∃ j, (n, j) ∈ k.ints ∧ j ≠ i ∧ q = (j, x)) := by
+    intro q
+    rw [mem_foldl_from (fun j => some j != some i) (fun j => j) (fun _ => x), hints,
+      mem_foldl_from' (fun j => j) (fun _ => i)]
+    simp only [Core.from, List.mem_cons, mem_intsOf]
+    constructor
+    · rintro (((h | h | h) | ⟨j, hj, h⟩) | ⟨j, hj, hji, h⟩)
+      · exact Or.inr (Or.inr (Or.inl h))
+      · exact Or.inr (Or.inl h)
+      · exact Or.inl h
+      · exact Or.inr (Or.inr (Or.inr (Or.inl ⟨j, hj, h⟩)))
+      · exact Or.inr (Or.inr (Or.inr (Or.inr ⟨j, hj, by simpa using hji, h⟩)))
+    · rintro (h | h | h | ⟨j, hj, h⟩ | ⟨j, hj, hji, h⟩)
+      · exact Or.inl (Or.inl (Or.inr (Or.inr h)))
+      · exact Or.inl (Or.inl (Or.inr (Or.inl h)))
+      · exact Or.inl (Or.inl (Or.inl h))
+      · exact Or.inl (Or.inr ⟨j, hj, h⟩)
+      · exact Or.inr ⟨j, hj, by simpa using hji, h⟩
+  rw [hF]
+  constructor
+  · rintro (h | ⟨fin, hfin, hc, h⟩)
+    · rcases h with h | h | h | h | h
+      · exact Or.inl h
+      · exact Or.inr (Or.inl h)
+      · exact Or.inr (Or.inr (Or.inl h))
+      · exact Or.inr (Or.inr (Or.inr (Or.inl h)))
+      · exact Or.inr (Or.inr (Or.inr (Or.inr (Or.inl h))))
+    · rw [List.mem_eraseDups, mem_objectsOf, hF] at hfin
+      rcases hfin with h' | h' | h' | ⟨j, hj, h'⟩ | ⟨j, hj, _, h'⟩
+      · exact Or.inr (Or.inr (Or.inr (Or.inr (Or.inr ⟨fin, h', h⟩))))
+      · exact absurd (Prod.mk.inj h').1 hnx
+      · have hfx : fin = x := (Prod.mk.inj h').2
+        subst hfx
+        have hr : rep = true := by simpa using hc
+        exact Or.inr (Or.inr (Or.inr (Or.inr (Or.inr ⟨fin, hrep.1 hr, h⟩))))
+      · have := (Prod.mk.inj h').1
+        subst this
+        exact absurd hj hxn
+      · have := (Prod.mk.inj h').1
+        subst this
+        exact absurd hj hnn
+  · rintro (h | h | h | h | h | ⟨fin, hfin, h⟩)
+    · exact Or.inl (Or.inl h)
+    · exact Or.inl (Or.inr (Or.inl h))
+    · exact Or.inl (Or.inr (Or.inr (Or.inl h)))
+    · exact Or.inl (Or.inr (Or.inr (Or.inr (Or.inl h))))
+    · exact Or.inl (Or.inr (Or.inr (Or.inr (Or.inr h))))
+    · refine Or.inr ⟨fin, ?_, ?_, h⟩
+      · rw [List.mem_eraseDups, mem_objectsOf, hF]
+        exact Or.inl hfin
+      · by_cases hfx : fin = x
+        · subst hfx
+          simp [hrep.2 hfin]
+        · have : (x != fin) = true := by simpa using fun h' => hfx h'.symm
+          simp [this]
+
 /-- a passed operation whose own node `x` carries no internal nodes -/
 theorem wire_some_mem (k : Core) (n x i : Nat) (p : Nat × Nat)
     (hx : ∀ j, (x, j) ∉ k.ints) (hnx : n ≠ x) (hnn : (n, n) ∉ k.ints) :
     p ∈ (wire k n x (some i)).frm ↔
       p ∈ k.frm ∨ p = (x, i) ∨ p = (n, x) ∨ (∃ j, (n, j) ∈ k.ints ∧ j ≠ i ∧ p = (j, x)) ∨
-      (∃ fin, (n, fin) ∈ k.frm ∧ fin ≠ x ∧ p = (i, fin)) := by
-  have hx' : intsOf ((k.from x i).from n x).ints x = [] := by
-    apply intsOf_eq_nil
-    intro q hq h
-    exact hx q.2 (by rw [← h]; exact hq)
-  simp only [wire]
-  rw [hx']
-  simp only [List.foldl_nil]
-  rw [mem_foldl_from (fun fin => x != fin) (fun _ => i) (fun fin => fin)]
-  -- the edges from `n` before the last fold
-  have hF : ∀ q, q ∈ (List.foldl (fun k j => if (some j != some i) = true then k.from j x else k)
-      ((k.from x i).from n x) (intsOf ((k.from x i).from n x).ints n)).frm ↔
-      q ∈ k.frm ∨ q = (x, i) ∨ q = (n, x) ∨ (∃ j, (n, j) ∈ k.ints ∧ j ≠ i ∧ q = (j, x)) := by
-    intro q
-    rw [mem_foldl_from (fun j => some j != some i) (fun j => j) (fun _ => x)]
-    simp only [Core.from, List.mem_cons, mem_intsOf]
-    constructor
-    · rintro ((h | h | h) | ⟨j, hj, hji, h⟩)
-      · exact Or.inr (Or.inr (Or.inl h))
-      · exact Or.inr (Or.inl h)
-      · exact Or.inl h
-      · exact Or.inr (Or.inr (Or.inr ⟨j, hj, by simpa using hji, h⟩))
-    · rintro (h | h | h | ⟨j, hj, hji, h⟩)
-      · exact Or.inl (Or.inr (Or.inr h))
-      · exact Or.inl (Or.inr (Or.inl h))
-      · exact Or.inl (Or.inl h)
-      · exact Or.inr ⟨j, hj, by simpa using hji, h⟩
-  rw [hF]
+      (∃ fin, (n, fin) ∈ k.frm ∧ p = (i, fin)) := by
+  rw [wire_some_mem_all k n x i p hnx hnn (hx n)]
   constructor
-  · rintro (h | ⟨fin, hfin, hne, h⟩)
-    · rcases h with h | h | h | h
-      · exact Or.inl h
-      · exact Or.inr (Or.inl h)
-      · exact Or.inr (Or.inr (Or.inl h))
-      · exact Or.inr (Or.inr (Or.inr (Or.inl h)))
-    · rw [List.mem_eraseDups, mem_objectsOf, hF] at hfin
-      have hne' : fin ≠ x := by
-        intro h'; subst h'; simp at hne
-      rcases hfin with h' | h' | h' | ⟨j, hj, _, h'⟩
-      · exact Or.inr (Or.inr (Or.inr (Or.inr ⟨fin, h', hne', h⟩)))
-      · exact absurd (Prod.mk.inj h').1 hnx
-      · exact absurd (Prod.mk.inj h').2 hne'
-      · have := (Prod.mk.inj h').1
-        subst this
-        exact absurd hj hnn
-  · rintro (h | h | h | h | ⟨fin, hfin, hne, h⟩)
-    · exact Or.inl (Or.inl h)
-    · exact Or.inl (Or.inr (Or.inl h))
-    · exact Or.inl (Or.inr (Or.inr (Or.inl h)))
-    · exact Or.inl (Or.inr (Or.inr (Or.inr h)))
-    · refine Or.inr ⟨fin, ?_, by simpa using fun h' => hne h'.symm, h⟩
-      rw [List.mem_eraseDups, mem_objectsOf, hF]
-      exact Or.inl hfin
+  · rintro (h | h | h | ⟨j, hj, _⟩ | h | h)
+    · exact Or.inl h
+    · exact Or.inr (Or.inl h)
+    · exact Or.inr (Or.inr (Or.inl h))
+    · exact absurd hj (hx j)
+    · exact Or.inr (Or.inr (Or.inr (Or.inl h)))
+    · exact Or.inr (Or.inr (Or.inr (Or.inr h)))
+  · rintro (h | h | h | h | h)
+    · exact Or.inl h
+    · exact Or.inr (Or.inl h)
+    · exact Or.inr (Or.inr (Or.inl h))
+    · exact Or.inr (Or.inr (Or.inr (Or.inr (Or.inl h))))
+    · exact Or.inr (Or.inr (Or.inr (Or.inr (Or.inr h))))
 
 end Tfv.C08P
